@@ -311,6 +311,113 @@ def section_names(serif, out):
     out.append("")
 
 
+def section_assign(serif, out):
+    """vector._PROMOTABLE: the (current kind, required kind) pairs __setitem__ may widen by.
+    Read from the module object; cross-checked against the literal in the source text."""
+    kc = kind_codes()
+    rows = []
+    try:
+        import serif.vector as V
+        pairs = set(V._PROMOTABLE)
+        # the fold in __setitem__ must actually consult this set (otherwise the constant is dead)
+        src = open(os.path.join(SRC, "serif", "vector.py")).read()
+        tree = ast.parse(src)
+        used = False
+        for node in ast.walk(tree):
+            if isinstance(node, ast.FunctionDef) and node.name == "__setitem__":
+                used = used or any(isinstance(n, ast.Name) and n.id == "_PROMOTABLE" for n in ast.walk(node))
+        if not used:
+            pairs = set()
+        for a, b in pairs:
+            if a in kc and b in kc:
+                rows.append((kc[a], kc[b]))
+            else:
+                rows.append((99, 99))      # an unknown class in the set: makes the tie theorems fail
+    except Exception:
+        rows = []
+    rows.sort()
+    out.append("/-- `vector._PROMOTABLE` (current kind code, required kind code) -/")
+    out.append("def promotable : List (Nat × Nat) := " + lean_list([f"({a}, {b})" for a, b in rows], 8))
+    out.append("")
+
+
+
+
+JOIN_METHODS = (("inner_join", "inner"), ("join", "left"), ("full_join", "full"))
+
+
+def _join_tuples(tree):
+    """For each join method of class Table: the three `expect (not) in (<str>, ...)` membership tuples.
+
+    validExpect  – the tuple of the first `expect not in (...)` test,
+    rightUnique / leftUnique – the tuples of the `expect in (...)` tests; the side is taken from the name the
+    test is assigned to (contains 'right' / 'left'), falling back on source order (right check first).
+    Returns {suffix: {"valid": [...]|None, "right": [...]|None, "left": [...]|None}}.
+    """
+    res = {}
+    table = next((n for n in ast.walk(tree) if isinstance(n, ast.ClassDef) and n.name == "Table"), None)
+    for meth, suffix in JOIN_METHODS:
+        got = {"valid": None, "right": None, "left": None}
+        res[suffix] = got
+        fn = None if table is None else next(
+            (n for n in table.body if isinstance(n, ast.FunctionDef) and n.name == meth), None)
+        if fn is None:
+            continue
+        assigned = {}
+        for n in ast.walk(fn):
+            if isinstance(n, ast.Assign) and len(n.targets) == 1 and isinstance(n.targets[0], ast.Name):
+                assigned[id(n.value)] = n.targets[0].id
+        tests = []
+        for n in ast.walk(fn):
+            if (isinstance(n, ast.Compare) and isinstance(n.left, ast.Name) and n.left.id == "expect"
+                    and len(n.ops) == 1 and isinstance(n.ops[0], (ast.In, ast.NotIn))
+                    and isinstance(n.comparators[0], (ast.Tuple, ast.List, ast.Set))
+                    and all(isinstance(e, ast.Constant) and isinstance(e.value, str) for e in n.comparators[0].elts)):
+                tests.append((n.lineno, n.col_offset, n))
+        tests.sort(key=lambda t: t[:2])
+        ins = []
+        for _, _, n in tests:
+            vals = [e.value for e in n.comparators[0].elts]
+            if isinstance(n.ops[0], ast.NotIn):
+                if got["valid"] is None:
+                    got["valid"] = vals
+            else:
+                ins.append((assigned.get(id(n), ""), vals))
+        unnamed = []
+        for name, vals in ins:
+            side = "right" if "right" in name.lower() else "left" if "left" in name.lower() else None
+            if side and got[side] is None:
+                got[side] = vals
+            else:
+                unnamed.append(vals)
+        for side in ("right", "left"):
+            if got[side] is None and unnamed:
+                got[side] = unnamed.pop(0)
+    return res
+
+
+def section_joins(serif, out):
+    """the `expect` membership tuples of inner_join / join / full_join, read with ast (never executed)"""
+    tuples = None
+    try:
+        with open(os.path.join(SRC, "serif", "table.py")) as f:
+            tuples = _join_tuples(ast.parse(f.read()))
+    except Exception:
+        tuples = {}
+    doc = {"valid": "accepted values of `expect` (anything else is rejected)",
+           "right": "values of `expect` for which right-side key uniqueness is checked",
+           "left": "values of `expect` for which left-side key uniqueness is checked"}
+    lean = {"valid": "validExpect", "right": "rightUnique", "left": "leftUnique"}
+    for _, suffix in JOIN_METHODS:
+        for what in ("valid", "right", "left"):
+            vals = (tuples.get(suffix) or {}).get(what)
+            note = "" if vals is not None else "  -- NOT FOUND in the source: neutral value"
+            out.append(f"/-- `Table.{dict((s, m) for m, s in JOIN_METHODS)[suffix]}`: {doc[what]} -/")
+            out.append(f"def {lean[what]}_{suffix} : List String := "
+                       + lean_list([lean_str(v) for v in (vals or [])], 6) + note)
+    out.append("")
+
+
 
 
 def generate():
